@@ -103,7 +103,7 @@ def workdir(tag, clean=True):
 _job_seq = [0]
 
 
-def run_jobs(jobs, wd, threads=None, timeout=20, env=None):
+def run_jobs(jobs, wd, threads=None, timeout=20, env=None, cwd=None):
     """Run jobs (list of dicts with unique 'id') on the worker-process pool. Returns {id: result}."""
     build_vdriver()
     if not jobs:
@@ -116,7 +116,7 @@ def run_jobs(jobs, wd, threads=None, timeout=20, env=None):
             f.write(json.dumps(j) + "\n")
     cmd = [VDRIVER, "run-jobs", jf, of, "-j", str(threads or NCPU), "--timeout", str(timeout),
            "--stderr", os.path.join(wd, "workers.stderr")]
-    p = sh(cmd, env=env or ENV)
+    p = sh(cmd, env=env or ENV, cwd=cwd)
     if p.returncode != 0:
         raise Machinery(f"vdriver run-jobs failed: {p.stderr.decode(errors='replace')[-2000:]}")
     res = {}
